@@ -86,6 +86,7 @@ type PCase struct {
 	FreezeClient  int                `json:"freeze_client,omitempty"`
 	FreezeAt      int                `json:"freeze_at,omitempty"`
 	FreezeSync    bool               `json:"freeze_sync,omitempty"`
+	RunTo         int                `json:"run_to,omitempty"` // crash needing a range of cases: [Run, RunTo)
 	HandoffWaiter int                `json:"handoff_waiter,omitempty"`
 	HandoffHolder int                `json:"handoff_holder,omitempty"`
 	HandoffAfter  int                `json:"handoff_after,omitempty"`
@@ -586,6 +587,7 @@ func (rig *parsimRig) runJob(job *PJob, race bool, timeout time.Duration) (*PJob
 	}
 	defer os.Remove(jp)
 	defer os.Remove(op)
+	defer os.Remove(op + ".at")
 	bin := rig.runner
 	if job.Plain {
 		bin = rig.plainRunner
@@ -615,7 +617,13 @@ func (rig *parsimRig) runJob(job *PJob, race bool, timeout time.Duration) (*PJob
 		return res, nil
 	}
 	if exit != 0 || rerr != nil {
-		return nil, workerCrash{fmt.Sprintf("worker exit %d (%v)\n%s", exit, rerr, clipStr(string(se)+string(so), 6000))}
+		at := -1
+		if b, err := os.ReadFile(op + ".at"); err == nil {
+			if n, err := strconv.Atoi(strings.TrimSpace(string(b))); err == nil {
+				at = n
+			}
+		}
+		return nil, workerCrash{fmt.Sprintf("worker exit %d (%v)\n%s", exit, rerr, clipStr(string(se)+string(so), 6000)), at}
 	}
 	var res PJobResult
 	if err := json.Unmarshal(out, &res); err != nil {
@@ -624,7 +632,10 @@ func (rig *parsimRig) runJob(job *PJob, race bool, timeout time.Duration) (*PJob
 	return &res, nil
 }
 
-type workerCrash struct{ msg string }
+type workerCrash struct {
+	msg string
+	at  int // the case the worker was on (-1: unknown)
+}
 
 func (w workerCrash) Error() string { return w.msg }
 
@@ -770,7 +781,18 @@ func (rig *parsimRig) sweepRange(mode string, seed uint64, lo, total int, race b
 // crashes again is a violation of class "crash", otherwise the crash is an
 // infrastructure problem.
 func (rig *parsimRig) isolateCrash(mode string, seed uint64, from, to int, race bool, wc workerCrash, timeout time.Duration) (*PViolation, error) {
-	for i := from; i < to; i++ {
+	// the case the worker was on first, then (the crash may need what came
+	// before it in the process) a bounded number of the others
+	order := make([]int, 0, to-from)
+	if wc.at >= from && wc.at < to {
+		order = append(order, wc.at)
+	}
+	for i := from; i < to && len(order) < 120; i++ {
+		if i != wc.at {
+			order = append(order, i)
+		}
+	}
+	for _, i := range order {
 		_, err := rig.runJob(&PJob{Mode: mode, Seed: seed, From: i, To: i + 1, Race: race}, race, timeout)
 		if err == nil {
 			continue
@@ -791,7 +813,17 @@ func (rig *parsimRig) isolateCrash(mode string, seed uint64, from, to int, race 
 		}
 		return nil, err
 	}
-	return nil, infra("worker crashed but no single case reproduces it:\n%s", clipStr(wc.msg, 3000))
+	// no case does it alone: does the range up to the case the worker was on
+	// do it again?
+	if wc.at >= from && wc.at < to {
+		if _, err := rig.runJob(&PJob{Mode: mode, Seed: seed, From: from, To: wc.at + 1, Race: race}, race, timeout); err != nil {
+			if w2, ok := err.(workerCrash); ok {
+				return &PViolation{Case: PCase{Mode: mode, Run: from, RunTo: wc.at + 1, Race: race}, Outcome: POutcome{Class: "crash",
+					Detail: fmt.Sprintf("the runner process dies on case %d when cases %d to %d ran before it in the same process, not when it runs alone:\n%s", wc.at, from, wc.at-1, clipStr(w2.msg, 2500))}}, nil
+			}
+		}
+	}
+	return nil, infra("worker crashed but neither a single case nor the same range reproduces it:\n%s", clipStr(wc.msg, 3000))
 }
 
 // ---------- workload specs ----------
